@@ -8,9 +8,14 @@ OWN = F.OWN
 
 
 def schedule(rng, length=None):
-    ops = ['iface 0 mtu=1500 mac=%s' % OWN, 'fsm new 0 map', 'fsm new 1 enum', 'fsm new 2 sess', 'tbl new 0', 'clock %d' % rng.choice([0, 1, 5000, 100000])]
+    ops = ['iface 0 mtu=1500 mac=%s' % OWN, 'fsm new 0 map', 'fsm new 1 enum', 'fsm new 2 sess', 'tbl new 0', 'clock %d' % rng.choice([0, 1, 5000, 100000, 100000, 2**32 - 900, 2**32 + 5000, 2**32 * 1000 + 77, 2**48])]      # also past 49.7 days of uptime (2^32 ms) and 2^32 s
     now = int(ops[-1].split()[1])
     keys = rng.sample([(m, g) for m in MACS for g in (0, 1, 2, 65535)], rng.choice([2, 3, 8, 17, 20, 24]))   # few keys: refresh / reuse; many: full table
+    if len(keys) >= 17 and rng.random() < 0.6:
+        for (m, g) in keys[:rng.choice([15, 16, 17])]:          # start from a (nearly) full table
+            ops.append('tbl add 0 %s %d %d' % (m, g, 1))
+            if rng.random() < 0.3:
+                ops.append('tbl complete 0 %s %d' % (m, g))
     for _ in range(length or rng.randint(20, 200)):
         c = rng.random()
         m, g = rng.choice(keys)
@@ -27,9 +32,10 @@ def schedule(rng, length=None):
             ops.append('tick %s %s %s %s' % ('0' if rng.random() < 0.9 else '-', '1' if rng.random() < 0.9 else '-', '0' if rng.random() < 0.9 else '-',
                                               rng.choice(['wired', 'wired', 'nolast', 'none'])))
         elif c < 0.34:
-            now += rng.choice([0, 1, 6, 99, 100, 101, 299, 300, 301, 999, 1000, 1001, 1999, 2000, 4999, 5000, 5001, 29999, 30000, 30001, 59999, 60000, 60001,
-                               61000, 120000, rng.randint(0, 3000), rng.randint(0, 90000)])
-            ops.append('clock %d' % now)
+            d = rng.choice([0, 1, 6, 99, 100, 101, 299, 300, 301, 999, 1000, 1001, 1999, 2000, 4999, 5000, 5001, 29999, 30000, 30001, 59999, 60000, 60001,
+                            61000, 120000, rng.randint(0, 3000), rng.randint(0, 90000)])
+            now += d
+            ops.append('clock %d' % d)           # `clock` advances the virtual clock
         elif c < 0.46:
             k = rng.random()
             if k < 0.5:
